@@ -130,8 +130,9 @@ def is_known(known, pid, clause, key):
 
 
 # --------------------------------------------------------------- minimisation
-def minimise(prop, spec, clause, budget=300):
-    """Delta-debug the tape; the violated clause id is preserved."""
+def minimise(prop, spec, clause, budget=300, key=None):
+    """Delta-debug the tape; the violated clause id and the violation key are preserved (so that minimising an unlisted
+    violation can never drift into a listed known finding of the same clause)."""
     calls = [0]
 
     def fails(values):
@@ -142,7 +143,7 @@ def minimise(prop, spec, clause, budget=300):
         except Exception:
             return None
         for c, k, t in res.get("viol") or ():
-            if c == clause:
+            if c == clause and (key is None or k == key):
                 return (list(tape.rec), k, t)
         return None
 
@@ -444,7 +445,7 @@ def main(argv=None):
         _, spec, clause, key, text = unknown[0]
         mini = None
         try:
-            mini = minimise(prop, spec, clause, budget=plan.get("minimise_budget", 300))
+            mini = minimise(prop, spec, clause, budget=plan.get("minimise_budget", 300), key=key)
         except Exception:
             print("note: minimisation failed:\n" + traceback.format_exc())
         if mini:
